@@ -27,6 +27,8 @@ type PropConfig struct {
 	Assume   []string `json:"assumptions"`
 	Bounded  []string `json:"bounded"`
 	Replays  []CustomReplay `json:"replays"`
+	CIncludes []string `json:"c_includes"` // headers (relative to felix/bpf-gpl) for C-side layout queries
+	CFlags    []string `json:"c_flags"`
 }
 
 func loadProps() map[string]*PropConfig {
@@ -125,6 +127,7 @@ func specPaths(pc *PropConfig) []string {
 
 // extraEngines: the property's "extra" entries from props.json (e.g. "forkjoin:<function>"), set by the commands.
 var extraEngines []string
+var curProp *PropConfig
 
 // generateUnits builds all verification units for a property.
 func generateUnits(P *Program, id string, only string) ([]*unit, []string) {
@@ -174,6 +177,11 @@ func generateUnits(P *Program, id string, only string) ([]*unit, []string) {
 			continue
 		}
 		units = append(units, &unit{name: "lemma:" + l.Name, res: GenLemma(P, l)})
+	}
+	if curProp != nil && (only == "" || strings.Contains("layout", only)) {
+		if r := GenLayout(P, id, curProp); r != nil {
+			units = append(units, &unit{name: "layout", res: r})
+		}
 	}
 	for _, ex := range extraEngines {
 		if strings.HasPrefix(ex, "forkjoin:") {
@@ -248,6 +256,7 @@ func cmdDump(args []string) {
 	}
 	extraEngines = pc.Extra
 	customReplays = pc.Replays
+	curProp = pc
 	units, problems := generateUnits(P, *prop, *only)
 	for _, p := range problems {
 		fmt.Println("PROBLEM:", p)
@@ -368,6 +377,7 @@ func cmdCheck(args []string) {
 	tLoad := time.Since(start).Seconds()
 	extraEngines = pc.Extra
 	customReplays = pc.Replays
+	curProp = pc
 	units, problems := generateUnits(P, id, "")
 	tGen := time.Since(start).Seconds() - tLoad
 	extraRuns, extraNotes := runExtraEngines(P, id, pc)
@@ -687,6 +697,10 @@ func writeReplay(P *Program, path, id string, r *oblRun) bool {
 		} else {
 			fmt.Fprintf(&b, "replay on real code: not attempted (replay budget of this run used up)\n")
 		}
+	} else if r.o.Kind == "layout" && r.res.Status == "sat" {
+		fmt.Fprintf(&b, "both sides were evaluated on the real code bases (Go typed AST of /repo; clang -target bpf over /repo/felix/bpf-gpl headers) and differ:\n  %s\n", r.o.Text)
+		fmt.Fprintf(&b, "replay: re-run `/verif/check %s quick` (the evaluation is deterministic)  => REPRODUCED on the real code\n", id)
+		reproduced = true
 	} else if r.o.ExpectSat {
 		fmt.Fprintf(&b, "vacuity check failed: the query that must be satisfiable is unsat (contract or path became contradictory / unreachable)\n")
 	} else {
